@@ -27,7 +27,7 @@ BIN = os.path.join(VERIF, "ocaml", "bin")
 
 FORBIDDEN = re.compile(
     r"\b(Admitted|admit|Axiom|Axioms|Parameter|Parameters|Conjecture|Conjectures|Hypothesis|Hypotheses|"
-    r"Variable|Variables|Admit Obligations|bypass_check|native_compute)\b|Unset Guard|Unset Positivity|"
+    r"Variable|Variables|Context|Admit Obligations|bypass_check|native_compute)\b|Unset Guard|Unset Positivity|"
     r"Unset Universe|type-in-type|impredicative-set"
 )
 
@@ -194,7 +194,7 @@ class Ctx:
                     txt = strip_coq_comments(open(p).read())
                     for m in FORBIDDEN.finditer(txt):
                         # Section-local Variable/Hypothesis are allowed (inside Section ... End)
-                        if m.group(0) in ("Variable", "Variables", "Hypothesis", "Hypotheses") and in_section(txt, m.start()):
+                        if m.group(0) in ("Variable", "Variables", "Hypothesis", "Hypotheses", "Context") and in_section(txt, m.start()):
                             continue
                         bad.append(f"{os.path.relpath(p, VERIF)}: {m.group(0)}")
         self.obligation("no Admitted/admit/Axiom/Parameter/guard switches in coq/", not bad, "; ".join(bad[:10]))
